@@ -65,6 +65,7 @@ type recipe struct {
 	truncTkt   int // bytes to keep, -1 all
 	flipAuth   int
 	truncAuth  int
+	trailer    bool // an unsealed EncTicketPart travels after enc-part (Ticket.Unmarshal fills DecryptedEncPart from it)
 }
 
 type minted struct {
@@ -78,10 +79,16 @@ var cusecCounter int
 func baseRecipe(c *Ctx, s *testService, et int32) recipe {
 	now := time.Now().UTC()
 	cusecCounter++
-	return recipe{et: et, now: now, cname: []string{"testuser1"}, crealm: "TEST.GOKRB5", tktRealm: s.realm, tktSName: s.sname,
+	// every third client comes from another realm than the service (a cross-realm ticket): the accepted
+	// identity is the sealed crealm, never the ticket's cleartext realm
+	cr := "TEST.GOKRB5"
+	if cusecCounter%3 == 0 {
+		cr = "PARTNER.EXAMPLE"
+	}
+	return recipe{et: et, now: now, cname: []string{"testuser1"}, crealm: cr, tktRealm: s.realm, tktSName: s.sname,
 		kvno: s.kvno, encEType: et, tktKey: s.keys[et], tktUsage: 2, flags: []byte{0x40, 0x80, 0, 0},
 		start: now.Add(-time.Hour).Truncate(time.Second), end: now.Add(8 * time.Hour).Truncate(time.Second),
-		authCName: []string{"testuser1"}, authCRealm: "TEST.GOKRB5",
+		authCName: []string{"testuser1"}, authCRealm: cr,
 		ctime: now.Truncate(time.Second).Add(time.Duration(cusecCounter%900000) * time.Microsecond), authUsage: 11,
 		flipTkt: -1, truncTkt: -1, flipAuth: -1, truncAuth: -1}
 }
@@ -127,6 +134,14 @@ func mint(c *Ctx, r recipe) minted {
 		ed.Cipher = ed.Cipher[:r.truncTkt]
 	}
 	tkt := messages.Ticket{TktVNO: 5, Realm: r.tktRealm, SName: types.PrincipalName{NameType: 2, NameString: r.tktSName}, EncPart: ed}
+	if r.trailer {
+		// optional fields only: none of them is sealed, so none may influence the verdict or the identity
+		tkt.DecryptedEncPart = messages.EncTicketPart{
+			CAddr:     []types.HostAddress{addrA},
+			StartTime: r.now.Add(48 * time.Hour).Truncate(time.Second),
+			RenewTill: r.now.Add(-48 * time.Hour).Truncate(time.Second),
+		}
+	}
 	sec := r.ctime.Truncate(time.Second)
 	auth := types.Authenticator{AVNO: 5, CRealm: r.authCRealm, CName: types.PrincipalName{NameType: 1, NameString: r.authCName},
 		Cusec: int(r.ctime.Sub(sec) / time.Microsecond), CTime: sec, SeqNumber: int64(c.R.Intn(1 << 30))}
